@@ -179,7 +179,7 @@ LEVEL_TEXT = ('Proof over the Gallina pipeline model: (grammar stage, any gramma
               'are exactly the text values and nums read from the dict - nothing lost, duplicated, reordered or invented; eId generation and '
               '(under a stated no-tail condition) normalisation keep all text; footnote resolution keeps every element that is not an internal '
               'placeholder block, with its attributes and its direct text, exactly once (C03_footnote_resolution_keeps_content, for trees of the '
-              'builder\'s shape) (C03_* theorems). Partial: conservation through to_dict is decided by the unique-token oracle on the '
+              'builder\'s shape) (C03_* theorems); and through the WHOLE pipeline model, to_dict included, for nests of hierarchical elements of any depth: the text nodes of the converted document, in order, are exactly the nums, headings and the line as written (C03_nest_conversion_keeps_text). Partial: conservation through to_dict for other shapes is decided by the unique-token oracle on the '
               'implementation and by the dict/e2e stages.')
 LEVEL_NOTE = 'Trusted: Coq kernel; hand models tied by sampling; translators; extraction+driver.'
 TECHNIQUE = 'Rocq proofs (span invariant of the PEG interpreter; list-equality induction over the XML builder) + differential run + unique-token oracle'
